@@ -563,7 +563,7 @@ func (x *vtx) c17r2() {
 			}
 			p := z.Of(val)
 			// field + 1
-			if p.equal(polyAtom("t." + fld.Name()).add(polyConst(1), 1)) {
+			if p.equal(polyAtom("t."+fld.Name()).add(polyConst(1), 1)) {
 				facts := g.FactsAt(n)
 				if fld == x.cursorY {
 					ok := hasFact(facts, func(f Fact) bool {
@@ -615,7 +615,9 @@ func (x *vtx) c17r2() {
 				reset := false
 				for _, sn := range x.storesOf(gl, x.cursorX) {
 					if k, ok := constInt64(gl.Ins[sn].(*ssa.Store).Val); ok && k == 1 {
-						if hasFact(gl.FactsAt(sn), func(f Fact) bool { return f.Y == nil && f.Op == token.EQL && f.X == ssa.Value(paramNamed(x.lf, "withCR")) }) {
+						if hasFact(gl.FactsAt(sn), func(f Fact) bool {
+							return f.Y == nil && f.Op == token.EQL && f.X == ssa.Value(paramNamed(x.lf, "withCR"))
+						}) {
 							reset = true
 						}
 					}
